@@ -191,6 +191,22 @@ def explore(ctx):
         cases.append(ci)
         oa, oi = c13.base_outcome(c), c13.base_outcome(ci)
         ctx.count('alias_pairs_across_types')
+        # the same document read through the stream interface (yaml.load_all with the generated loader)
+        try:
+            del c.model.log[:]
+            docs = list(yaml.load_all(c.text, Loader=c.real.loader_cls))
+            om = ('ok', CM.val_sexp(docs[0], c.model)) if len(docs) == 1 else ('other', 'documents: %d' % len(docs))
+        except yatiml.RecognitionError:
+            om = ('fail',)
+        except yaml.YAMLError:
+            om = ('fail',)
+        except Exception as e:  # noqa
+            om = ('other', type(e).__name__)
+        ctx.count('load_all_checked')
+        if om != oa:
+            ctx.violation('read as a stream (yaml.load_all with the generated loader) the aliased document gives {}, '
+                          'loaded singly {}'.format(str(om)[:120], str(oa)[:120]),
+                          dict(L.describe(c), key='alias-stream:{}'.format(c.text[:60])))
         if oa != oi:
             ctx.violation('with the alias: {}; with a copy written out: {}'.format(str(oa)[:150], str(oi)[:150]),
                           dict(L.describe(c), key='alias-across:{}'.format(c.text[:60]), inlined_text=ci.text))
